@@ -43,7 +43,7 @@ func checkAliasReset(p *Program, r *Report, rule string) {
 						if !ok || !isTmplPtr(fa.X.Type()) || fa.X == st.Addr {
 							continue
 						}
-						if _, fresh := fa.X.(*ssa.Alloc); fresh {
+						if _, fresh := fa.X.(*ssa.Alloc); fresh || isCtorCall(fa.X) {
 							continue
 						}
 						after := false
@@ -66,4 +66,26 @@ func checkAliasReset(p *Program, r *Report, rule string) {
 	if n == 0 {
 		r.OK(rule, "template#no-in-place-reset", "", "no template is overwritten in place")
 	}
+}
+
+// isCtorCall: v is a call of a helper of the repository all of whose returns are one struct
+// allocated in that helper (a fresh object, distinct from every object that existed before).
+func isCtorCall(v ssa.Value) bool {
+	c, ok := v.(*ssa.Call)
+	if !ok {
+		return false
+	}
+	g := staticCallee(c.Common())
+	if g == nil || g.Blocks == nil || g.Pkg == nil || !strings.HasPrefix(g.Pkg.Pkg.Path(), modulePath) || g.Signature.Results().Len() != 1 {
+		return false
+	}
+	var al *ssa.Alloc
+	for _, ret := range Returns(g) {
+		a, ok := ret.Results[0].(*ssa.Alloc)
+		if !ok || !a.Heap || (al != nil && al != a) {
+			return false
+		}
+		al = a
+	}
+	return al != nil
 }
